@@ -783,7 +783,14 @@ int intcmp(const void *v1, const void *v2)
   return (*(int *)v1 - *(int *)v2);
 }
 
+int uicmp(const void *v1, const void *v2)
+{
+  size_t a = *(const size_t *)v1;
+  size_t b = *(const size_t *)v2;
+  return (a > b) - (a < b);
+}
+
 void SortUIVector(uivector* d)
 {
-  qsort(d->data, d->size, sizeof(d->data[0]), intcmp);
+  qsort(d->data, d->size, sizeof(d->data[0]), uicmp);
 }
